@@ -1,95 +1,1 @@
 //! scratch experiments (not part of any property)
-use crate::c24::*;
-
-#[kani::proof]
-#[kani::unwind(3)]
-fn probe_lf_p1() {
-    set_vlen(0);
-    let st = lf::state_k(any_kind(0, 6));
-    let msg = lf::msg_k(4);
-    let r = st.apply(&msg);
-    kani::cover!(r.is_ok(), "ok");
-    core::mem::forget(r);
-    core::mem::forget(st);
-    core::mem::forget(msg);
-}
-#[kani::proof]
-#[kani::unwind(3)]
-fn probe_lf_p2() {
-    set_vlen(0);
-    let k = any_kind(0, 6);
-    kani::assume(k != 4);
-    let st = match k { 0 => lf::state_k(0), 1 => lf::state_k(1), 2 => lf::state_k(2), 3 => lf::state_k(3), _ => lf::state_k(5) };
-    let msg = lf::msg_k(4);
-    let r = st.apply(&msg);
-    kani::cover!(r.is_ok(), "ok");
-    core::mem::forget(r);
-    core::mem::forget(st);
-    core::mem::forget(msg);
-}
-#[kani::proof]
-#[kani::unwind(3)]
-fn probe_lf_p3() {
-    set_vlen(0);
-    let st = lf::state_k(4);
-    let msg = lf::msg_k(4);
-    let r = st.apply(&msg);
-    kani::cover!(r.is_err(), "err");
-    core::mem::forget(r);
-    core::mem::forget(st);
-    core::mem::forget(msg);
-}
-#[kani::proof]
-#[kani::unwind(3)]
-fn probe_lf_p4() {
-    set_vlen(0);
-    let st = lf::state_k(any_kind(0, 6));
-    kani::cover!(lf::cls(&st) == lf::Cls::Done, "done");
-    core::mem::forget(st);
-}
-#[kani::proof]
-#[kani::unwind(3)]
-fn probe_lf_p5() {
-    any_vlen();
-    let st = lf::state_k(any_kind(0, 6));
-    let msg = lf::msg_k(4);
-    let r = st.apply(&msg);
-    kani::cover!(r.is_ok(), "ok");
-    core::mem::forget(r);
-    core::mem::forget(st);
-    core::mem::forget(msg);
-}
-#[kani::proof]
-#[kani::unwind(3)]
-fn probe_lf_p6() {
-    set_vlen(1);
-    let st = lf::state_k(any_kind(0, 6));
-    let msg = lf::msg_k(4);
-    let want = lf::spec(lf::cls(&st), &msg);
-    let r = st.apply(&msg);
-    assert!(r.is_ok() == want.is_some(), "accepted exactly when the specification allows the message in this state");
-    if let Ok(n) = &r {
-        assert!(Some(lf::cls(n)) == want, "next state class is the prescribed one");
-    }
-    kani::cover!(r.is_ok(), "ok");
-    core::mem::forget(r);
-    core::mem::forget(st);
-    core::mem::forget(msg);
-}
-#[kani::proof]
-#[kani::unwind(3)]
-fn probe_lf_p7() {
-    set_vlen(1);
-    let st = lf::state_k(any_kind(0, 6));
-    let msg = lf::msg_k(any_kind(0, 5));
-    let want = lf::spec(lf::cls(&st), &msg);
-    let r = st.apply(&msg);
-    assert!(r.is_ok() == want.is_some(), "accepted exactly when the specification allows the message in this state");
-    if let Ok(n) = &r {
-        assert!(Some(lf::cls(n)) == want, "next state class is the prescribed one");
-    }
-    kani::cover!(r.is_ok(), "ok");
-    core::mem::forget(r);
-    core::mem::forget(st);
-    core::mem::forget(msg);
-}
